@@ -8,7 +8,7 @@ amoco.system.core.open -> SimFile) or with a bytes argument.  Oracles:
      is a violation;
  (2) bounded progress: <= BUDGET interpreter events (function entries + loop
      back-edges, counted with sys.monitoring; deterministic);
- (3) bounded allocation: tracemalloc peak <= 64 MiB + 64 x file size;
+ (3) bounded allocation: tracemalloc peak <= 512 MiB + 64 x file size;
  (4) fault-free valid bases are identified as their own format.
 """
 import io
@@ -29,7 +29,7 @@ SIGNATURE_KEYED = True
 MINIMISE = True
 
 BUDGET = 20_000_000
-MEM_BASE = 64 << 20
+MEM_BASE = 512 << 20
 MEM_PER_BYTE = 64
 
 RULE = (
@@ -43,7 +43,7 @@ RULE = (
 )
 ASSUMPTIONS = [
     "budget of 2e7 interpreter events (function entries + backward jumps): the most expensive valid sample costs < 1e5; a loop bounded by a 16-bit file field fits, one driven by a 32-bit field or one that does not consume input does not",
-    "allocation bound: tracemalloc peak <= 64 MiB + 64 x file size (thorough: all cases; quick: a seeded quarter)",
+    "allocation bound: tracemalloc peak <= 512 MiB + 64 x file size (thorough: all cases; quick: a seeded quarter). Calibration: a table driven by a 16-bit count of <= 8 KiB objects fits (ELF e_shnum = 65535 builds 290 MB of section headers from a 243-byte file: pathological but bounded, so not a violation of 'unbounded allocation'); a 32-bit count or a loop that does not consume input does not (the repaired Mach-O table reader reached 3 GiB)",
     "short non-EOF reads and EIO are not injected: read_program opens a buffered regular file and the property speaks of content only",
     "an empty or text-only input identified as HEX/SREC/raw is allowed by the statement (a recognised object or the raw fallback)",
     "wall-clock watchdog only protects the harness; a world that stalls below its event budget twice is reported as class stall (decided by wall time, stated as such)",
